@@ -87,6 +87,7 @@ class TridonicGW:
         self.inits = getattr(self, "inits", [])
 
     def on_write(self, data):
+        self.w.raw_writes.append(bytes(data))
         cmd = data[0]
         if cmd == 0x01:
             self.inits.append(data[1])
@@ -140,6 +141,7 @@ class HassebGW:
         return hi in (0xA9, 0xB9, 0xBB, 0xC7)
 
     def on_write(self, data):
+        self.w.raw_writes.append(bytes(data))
         v = int.from_bytes(data[:2], "big")
         idx = len(self.wire)
         self.wire.append((16, v, False, None))
@@ -169,6 +171,7 @@ class HidWorld(World):
         self.fd = None
         self.rxbuf = []
         self.closed, self.open_calls = [], []
+        self.raw_writes = []
         self.status_log = []
         self.traffic = []
         self.loss_budget = 1 if loss else 0
